@@ -306,8 +306,8 @@ func propC06Judge(c *vs.Case, env *Env, scn *Scn, t *SyncTrace, pre []map[string
 		}
 		c.Class("recreated-next-sync")
 	}
-	if len(env.CacheViolations) > 0 {
-		return vs.Violf("C17/cache-mutated", "shared cache objects changed during a sync: %v", env.CacheViolations)
+	if v := env.SharedStateViolation(); v != nil {
+		return v
 	}
 	return nil
 }
